@@ -430,7 +430,7 @@ package jet
 //@   requires PInv(t)
 //@   modifies @Parse
 //@   ensures PInv(t) && result != nil && WFTag(result)
-//@   callsite (*Template).newReturn 0 requires [a-return-statement-has-a-value] {C20,C09} value != nil && value == lastret("(*Template).expression", 0)
+//@   callsite (*Template).newReturn 0 requires [a-return-statement-has-a-value] {C20,C09} pipe != nil && ncalls("(*Template).expression") == 1 && pipe == lastret("(*Template).expression", 0)
 
 //@ func (*Template).parseTemplate
 //@   props C02 C03 C08 C20 C15
